@@ -127,7 +127,7 @@ Adopt == /\ ~ENABLED Bound
          /\ err' = Ev.exc /\ ops' = ops + 1 /\ log' = log
 
 \* ---------------------------------------------------------------- C01 validity law
-Budget(n, e6) == 5000000 + 1000000 * n + 2 * (e6 \div 1000)   \* 1e-9 units; e6 = strain * 1e6
+Budget(n, e6) == 5000000 + 1000000 * n + 2 * e6   \* 1e-9 units; e6 = strain * 1e6, so 2e-3 * strain = 2 * e6 * 1e-9
 Grew(m) == Len(hist'[m]) = Len(hist[m]) + 1
 Judge(m) ==
     LET v == Obs(m).v
